@@ -223,7 +223,7 @@ pub fn locations(p: &Pattern, out: &mut Vec<String>) {
 }
 
 /// Token trees with everything the parser model looks at.
-///   (i hex(name) sp)   (p hex(char) joint sp)   (l kind hex(text) sp extra)   (g delim sp spopen spclose tt...)
+///   (i hex(name) sp keyword)   (p hex(char) joint sp)   (l kind hex(text) sp extra)   (g delim sp spopen spclose tt...)
 /// kind: int (extra = base-10 digits or `bad`), float, str (extra = hex(value)), other.
 pub fn tts(ts: &TokenStream) -> String {
     let mut out = Vec::new();
@@ -239,7 +239,12 @@ pub fn tts(ts: &TokenStream) -> String {
                 let ds = g.delim_span();
                 format!("(g {} {} {} {} {})", d, sp(g.span()), sp(ds.open()), sp(ds.close()), tts(&g.stream()))
             }
-            TokenTree::Ident(i) => format!("(i {} {})", hex(&i.to_string()), sp(i.span())),
+            TokenTree::Ident(i) => {
+                // whether `syn::Ident` accepts this identifier (keywords and `_` are not accepted)
+                let one: TokenStream = std::iter::once(TokenTree::Ident(i.clone())).collect();
+                let kw = syn::parse2::<syn::Ident>(one).is_err();
+                format!("(i {} {} {})", hex(&i.to_string()), sp(i.span()), if kw { 1 } else { 0 })
+            }
             TokenTree::Punct(p) => format!("(p {} {} {})", hex(&p.as_char().to_string()), if p.spacing() == proc_macro2::Spacing::Joint { 1 } else { 0 }, sp(p.span())),
             TokenTree::Literal(l) => {
                 let text = l.to_string();
@@ -259,7 +264,7 @@ pub fn tts(ts: &TokenStream) -> String {
 }
 
 /// Oracle tables: what `syn` answers at every position of every token sequence.
-///   (o path index kind consumed DUMP)   kind: E (Expr), P (Path), C (ExprClosure; DUMP carries the arity in its class)
+///   (o path index kind consumed deferred-unexpected DUMP)   kind: E (Expr), P (Path), C (ExprClosure; DUMP carries the arity in its class)
 pub fn oracle(ts: &TokenStream, path: &mut Vec<usize>, out: &mut Vec<String>) {
     use syn::parse::Parser;
     let v: Vec<TokenTree> = ts.clone().into_iter().collect();
@@ -269,21 +274,41 @@ pub fn oracle(ts: &TokenStream, path: &mut Vec<usize>, out: &mut Vec<String>) {
         let p = path.iter().map(|x| x.to_string()).collect::<Vec<_>>().join(".");
         let p = if p.is_empty() { "-".to_string() } else { p };
         let count = |rest: &TokenStream| n - i - rest.clone().into_iter().count();
-        let pe = |input: syn::parse::ParseStream| -> syn::Result<(syn::Expr, TokenStream)> { Ok((input.parse()?, input.parse()?)) };
-        if let Ok((e, rest)) = pe.parse2(suffix.clone()) {
-            out.push(format!("(o {} {} E {} {})", p, i, count(&rest), expr(&e)));
+        // `syn` defers "unexpected token" errors for tokens left inside a delimited group: the inner
+        // parse succeeds and the error is raised when the outermost parse ends.  The closure's own
+        // result says whether the inner parse succeeded; `parse2` failing afterwards says the
+        // deferred flag was set (the rest of the stream is consumed, so nothing else can fail).
+        let seen: std::cell::RefCell<Option<(usize, String)>> = std::cell::RefCell::new(None);
+        let pe = |input: syn::parse::ParseStream| -> syn::Result<()> {
+            let e: syn::Expr = input.parse()?;
+            let rest: TokenStream = input.parse()?;
+            *seen.borrow_mut() = Some((count(&rest), expr(&e)));
+            Ok(())
+        };
+        let r = pe.parse2(suffix.clone());
+        if let Some((c, d)) = seen.borrow_mut().take() {
+            out.push(format!("(o {} {} E {} {} {})", p, i, c, if r.is_err() { 1 } else { 0 }, d));
         }
-        let pp = |input: syn::parse::ParseStream| -> syn::Result<(syn::Path, TokenStream)> { Ok((input.parse()?, input.parse()?)) };
-        if let Ok((e, rest)) = pp.parse2(suffix.clone()) {
-            out.push(format!("(o {} {} P {} {})", p, i, count(&rest), path_dump(&e)));
+        let pp = |input: syn::parse::ParseStream| -> syn::Result<()> {
+            let e: syn::Path = input.parse()?;
+            let rest: TokenStream = input.parse()?;
+            *seen.borrow_mut() = Some((count(&rest), path_dump(&e)));
+            Ok(())
+        };
+        let r = pp.parse2(suffix.clone());
+        if let Some((c, d)) = seen.borrow_mut().take() {
+            out.push(format!("(o {} {} P {} {} {})", p, i, c, if r.is_err() { 1 } else { 0 }, d));
         }
-        let pc = |input: syn::parse::ParseStream| -> syn::Result<(syn::ExprClosure, TokenStream)> { Ok((input.parse()?, input.parse()?)) };
-        if let Ok((c, rest)) = pc.parse2(suffix.clone()) {
-            let inputs_sp = {
-                use syn::spanned::Spanned;
-                sp(c.inputs.span())
-            };
-            out.push(format!("(o {} {} C {} {} {})", p, i, count(&rest), inputs_sp, expr(&syn::Expr::Closure(c))));
+        let pc = |input: syn::parse::ParseStream| -> syn::Result<()> {
+            let c: syn::ExprClosure = input.parse()?;
+            let rest: TokenStream = input.parse()?;
+            let inputs_sp = sp(c.inputs.span());
+            *seen.borrow_mut() = Some((count(&rest), format!("{} {}", inputs_sp, expr(&syn::Expr::Closure(c)))));
+            Ok(())
+        };
+        let r = pc.parse2(suffix.clone());
+        if let Some((c, d)) = seen.borrow_mut().take() {
+            out.push(format!("(o {} {} C {} {} {})", p, i, c, if r.is_err() { 1 } else { 0 }, d));
         }
         if let TokenTree::Group(g) = &v[i] {
             path.push(i);
